@@ -27,7 +27,7 @@ static Seed mk_seed(const std::string& name, const std::string& bytes) {
 
 struct V { std::string key, what; };
 
-static void check_prefix(const Seed& s, size_t n, int stream_kind, std::vector<V>& out) {
+static void check_prefix0(const Seed& s, size_t n, int stream_kind, std::vector<V>& out) {
     std::string pre = s.bytes.substr(0, n);
     size_t expect_blocks = 0; for (auto& b : s.rf.blocks) if (b.end <= n) expect_blocks++;
     bool expect_header = n >= s.rf.header_end;
@@ -62,6 +62,17 @@ static void check_prefix(const Seed& s, size_t n, int stream_kind, std::vector<V
             }
         } catch (std::exception&) {}
     }
+}
+
+// A cut read is followed by a complete read of a small valid file (unknown members with nested values, read in the same thread): whatever the
+// failed read left behind - in the reader, the decoder, or anything they share - must not change what the next, independent read returns.
+static const Seed* g_canary = nullptr;
+static void check_prefix(const Seed& s, size_t n, int stream_kind, std::vector<V>& out) {
+    check_prefix0(s, n, stream_kind, out);
+    if (!g_canary || n == s.bytes.size()) return;
+    lib::LibFile lf = lib::read_bytes(g_canary->bytes);
+    if (lf.end != "eof" || lf.blocks != g_canary->lib_blocks || lf.preamble != g_canary->lib_preamble)
+        out.push_back({"stateful-after-cut-read", "after reading " + s.name + " cut at " + std::to_string(n) + ", a complete valid file (" + g_canary->name + ") is read differently: " + std::to_string(lf.blocks.size()) + " blocks, end=" + lf.end});
 }
 
 // flat streams: n one-byte items; every op must return exactly n values, then CdnsDecoderEnd
@@ -262,6 +273,12 @@ int main(int argc, char** argv) {
             Node root = parse_exact(seeds::small()); root.kids[2].indef = !def; Node val = text ? mk_tstr(std::string(len, 'u')) : mk_bstr(std::string(len, '\x55'));
             root.kids[1].kids.insert(root.kids[1].kids.end(), {mk_int(-10), val}); for (auto& blk : root.kids[2].kids) blk.kids.insert(blk.kids.end(), {mk_int(-10), val});
             seeds.push_back(mk_seed(std::string("small-unknown-tail-") + (def ? "definite-" : "") + (text ? "t" : "b") + std::to_string(len), encode(root))); }
+        // the same with NESTED values (arrays in arrays, a map, indefinite-length inner containers): a cut inside the value interrupts the skip with open containers
+        for (int indef = 0; indef < 2; indef++) {
+            Node root = parse_exact(seeds::small()); Node in1 = mk_array({mk_uint(1), mk_uint(2), mk_uint(3)}), in2 = mk_array({mk_uint(4), mk_tstr("five")}), in3 = mk_map({mk_uint(1), mk_array({mk_uint(6), mk_bstr("seven")})});
+            if (indef) { in1.indef = true; in3.indef = true; } Node val = mk_array({in1, in2, in3}); if (indef) val.indef = true;
+            root.kids[1].kids.insert(root.kids[1].kids.end(), {mk_int(-10), val}); for (auto& blk : root.kids[2].kids) blk.kids.insert(blk.kids.end(), {mk_int(-10), val});
+            seeds.push_back(mk_seed(std::string("small-unknown-nested-tail-") + (indef ? "indefinite" : "definite"), encode(root))); }
         // files from another encoder: every array and map in indefinite-length form, padded so that the BREAK of one chosen array lies exactly on a multiple of the
         // decoder window (a break that is the first byte of a refill). One file per chosen array (block array, tables, record arrays, index lists ...).
         { seeds::Opt o0; o0.sets = {seeds::PS(10000, 1000000, 0)}; o0.blocks = 3; o0.per_block = 2;
@@ -282,6 +299,7 @@ int main(int argc, char** argv) {
             for (auto& sd : seeds) if (!sd.lib_error.empty() && (only.empty() || only == sd.name)) total.violation("prefix|valid-file-not-read-completely|" + sd.name.substr(0, sd.name.find_last_of('-')), "seed " + sd.name + " (" + std::to_string(sd.bytes.size()) + " bytes, valid): " + sd.lib_error, "kind=fullread;seed=" + sd.name);
             if (!a.replay.empty()) return done(total.viol.empty() ? 0 : 1); }
         { std::vector<Seed> ok; for (auto& sd : seeds) if (sd.lib_error.empty()) ok.push_back(sd); seeds = ok; }
+        for (auto& sd : seeds) if (sd.name == "small-unknown-nested-tail-definite") g_canary = &sd;
         struct Task { int kind; size_t seed; size_t lo, hi; int p; };
         std::vector<Task> tasks;
         std::map<size_t, std::vector<size_t>> points;
